@@ -1,7 +1,8 @@
 // wC16 — log-sink zip batching emits every record exactly once, in order, decodably.
 //
 // Each scenario creates a fresh sender through the REAL GetInstance (after VerifResetInstance),
-// hands records over through the queue (background goroutine running) or directly (Append,
+// hands records over through the queue (background goroutine running; stopped after the queue
+// drained or, in the stop scenarios, while records are still buffered) or directly (Append,
 // SendDirect), with the built-in defaults or with settings applied through the real
 // ApplyConfig (repository's mock configuration), and judges what a recording TcpClient
 // received. Time is virtual: the wait-time trigger compares record timestamps.
@@ -799,6 +800,7 @@ func main() {
 		c.Floor("records_decoded_and_compared", 200, c.Counter("records_decoded_and_compared"))
 		c.Floor("queue_scenarios_stopped", 3, c.Counter("queue_scenarios_stopped"))
 		c.Floor("stop_scenarios", 2, c.Counter("stop_scenarios"))
+		c.Floor("stop_scenarios_with_buffered_records_flushed_by_stop", 1, c.Counter("stop_scenarios_with_buffered_records_flushed_by_stop"))
 		if !race {
 			c.Floor("retained_packs_compared", 20, c.Counter("retained_packs_compared"))
 			c.Floor("defaults_settings_read", 20, c.Counter("defaults_settings_read"))
